@@ -479,6 +479,23 @@ func (c *Ctx) createFunctionShapeRule(rule string, which string) {
 			}
 			if okBack && okErr && okAll {
 				found = true
+				// … and no variable is called like an import of the setup file: going round the loop means LookupPath(name) found
+				// nothing (`F(model *model.User) *model.UserDTO`: inside the function `model` is the parameter, and the qualified
+				// types, converters and hooks the body needs cannot be written)
+				notImport := c.M(false, func(t *core.Term) bool {
+					return t.Kind == "extract" && t.Name == "1" && t.Args[0].IsCallTo("("+pUtil+"ImportNames).LookupPath") && t.Args[0].Args[1].IsField("model.Var.Name")
+				})
+				okImp, whyImp := true, ""
+				for _, p := range head.Preds {
+					if body[p] {
+						be := rc.BackEdgeCond(p, head)
+						if !be.Implies(notImport) {
+							okImp = false
+							whyImp = c.failing(be, notImport)
+						}
+					}
+				}
+				r.Check(rule, FnKey(cf)+":no-import-names", c.Pos(cf.Pos()), okImp, "CreateFunction accepts a source, destination, receiver or additional argument named like an imported package: the name hides the package inside the emitted function (exit 0, `model.UserDTO is not a type`); the loop continues under "+whyImp)
 			}
 		}
 		r.Check(rule, FnKey(cf)+":distinct-names", c.Pos(cf.Pos()), found, "CreateFunction does not refuse variable names that would be declared twice in the emitted function: "+why)
